@@ -15,7 +15,7 @@ pub fn mon() -> Mon {
         replay,
         rule: "All 2^24 three-byte prefixes, bare, on two contexts with different address/configuration/history; a 2^20 (quick) or full 2^24 (thorough) pass with two seeded continuations of random length and content each; inputs of length 0, 1, 2 with every byte value; probes *related* to a packet the context has just decoded or processed (same source and tag, other flags, other byte counts). Oracle: byte[1] == 0x0F ? Ok(byte[2] + 4) : Err((Invalid, _)); inputs shorter than 3 must yield an error value (no panic, no Ok). Distinct non-trivial = distinct (prefix, continuation) inputs judged (hash set, capped).",
         assumptions: &["contexts are validly configured; the probe takes no other input"],
-        children: no_children,
+        children: rel_child_quarter,
     }
 }
 
